@@ -124,11 +124,12 @@ class C02(Check):
         for n in range(n_state):
             directed, assort = rng.random() < 0.5, rng.random() < 0.5
             K = rng.randint(2, 4)
-            if n % 19 == 7:
-                K = rng.choice([1, 8, 31, 32, 33, 40, 65])   # the equations hold for any number of groups
+            if n % 19 == 7 and n < 400:
+                K = rng.choice([1, 8, 31, 32, 33, 40, 65])   # the equations hold for any number of groups (a handful of cases:
+                                                             # the Lean model needs seconds for each of them)
             wt = rng.choice("uuur")
             recs, L = gen.records(rng, wt=wt)
-            if n % 50 == 11:
+            if n % 50 == 11 and n < 160:
                 recs, L = gen.records(rng, wt="u", N=rng.randint(2, 4), nrec=rng.randint(2, 4), heavy="wide")
                 wt = "u"
             net = ref.PyNet(recs, L, directed, real=(wt == "r"))
